@@ -24,9 +24,14 @@
    undefined behaviour below the level of the model (signed overflow / shifts in C expressions,
    uninitialised reads, aliasing, libc / zlib internals, stack depth).  Known C expressions whose
    arithmetic is undefined for some reachable value and is not observable in the model:
-     - iodined.c handle_raw_login: `users[userid].seed + 1` and `seed - 1` on an int: seed = rand()
-       ranges over 0..RAND_MAX = 2^31-1, so seed + 1 overflows for seed = INT_MAX (probability 2^-31
-       per handshake; the model computes the two's-complement wrap, wrap32) -- reported, not fixed;
+     - iodined.c handle_raw_login: `users[userid].seed + 1` / `seed - 1` on an int: seed = rand()
+       ranges over 0..RAND_MAX = 2^31-1, so seed + 1 overflowed for seed = INT_MAX (probability 2^-31
+       per handshake; the model computes the two's-complement wrap, wrap32).  Fixed in /repo db34e24
+       (unsigned arithmetic); corpus/C05/intmax-seed-raw-login.cases drives rand() to INT_MAX and
+       makes UBSan report the overflow when that fix is reverted;
+     - iodined.c V handler `(unpacked[0] & 0xff) << 24` (shift into the sign bit, fixed in fb7526d,
+       corpus/C05/d15-signed-shift.cases); base32.c / base64.c reverse tables indexed with a plain
+       char (fixed in de1166f, corpus/C05/d3-high-bytes.cases);
      - dns.c / read.c: `short qdcount = ntohs(...)`, conversions of values >= 0x8000 to short are
        implementation-defined (not undefined); modelled by to_short. *)
 From Coq Require Import List NArith ZArith Arith Bool Lia.
